@@ -112,6 +112,13 @@ def expected(env, c):
                 fragment=NFC(c['fragment']))
 
 
+def default_port(scheme):
+    try:
+        return URL.from_parts(scheme=scheme).default_port
+    except Exception:  # noqa
+        return {'http': 80, 'git+ssh': 22}.get(scheme)
+
+
 def roundtrip(env, c):
     """-> (problems: list of (clause, what), text)"""
     u = build(env, c)
@@ -124,7 +131,7 @@ def roundtrip(env, c):
         if not LEGAL_RE[kind].fullmatch(piece):
             probs.append(('rendered_text_legal', 'raw %r in the %s of %r' % (bad_chars(kind, piece) if kind != 'host' else piece, kind, text)))
     got, want = observe(URL(text)), expected(env, c)
-    dport = URL.from_parts(scheme=env[0]).default_port
+    dport = default_port(env[0])
     for k in want:
         if got[k] != want[k] and not (k == 'port' and want[k] == dport and got[k] is None):
             probs.append(('component_recovered', '%s: put %r, got back %r (text %r)' % (k, want[k], got[k], text)))
@@ -135,12 +142,13 @@ _cache = {}
 
 
 def fails(env, pos, s, filled):
+    """the set of clauses that fail for s alone at pos (empty set: none)"""
     key = (env, pos, s, filled)
     if key not in _cache:
         try:
-            _cache[key] = bool(roundtrip(env, parts_for(pos, s, filled))[0])
+            _cache[key] = frozenset(p[0] for p in roundtrip(env, parts_for(pos, s, filled))[0])
         except Exception:  # noqa
-            _cache[key] = True
+            _cache[key] = frozenset(['component_recovered'])
     return _cache[key]
 
 
@@ -148,14 +156,14 @@ def ctx_name(pos, filled):
     return '%s, other components %s: any text' % (KIND[pos], 'present' if filled else 'empty')
 
 
-def wclasses(env, pos, s, syms, filled):
+def wclasses(env, pos, s, syms, filled, clause):
     """the classes of witness a failing case belongs to (stable, independent of enumeration order)"""
     c = parts_for(pos, s, filled)
-    if not c['username'] and c['password'] and fails(env, 'password', 'zz', False):
+    if not c['username'] and c['password'] and clause in fails(env, 'password', 'zz', False):
         return ['password with an empty username']
-    if fails(env, pos, 'zz', filled):
+    if clause in fails(env, pos, 'zz', filled):
         return [ctx_name(pos, filled)]
-    cul = sorted(set(c for c in syms if fails(env, pos, c, filled)))
+    cul = sorted(set(c for c in syms if clause in fails(env, pos, c, filled)))
     if cul:
         return ['%s containing %r' % (KIND[pos], c) for c in cul]
     return ['%s: %s' % (KIND[pos], 'empty string' if not s else 'multi-character interaction')]
@@ -163,13 +171,16 @@ def wclasses(env, pos, s, syms, filled):
 
 def rt_snippet(env, c):
     if env[1] == 'ipv6':
-        return None
-    return HDR + ('u = URL.from_parts(scheme=%r, host=%r, port=%r, username=%r, password=%r, path_parts=%r, query_params=%r, fragment=%r)\n'
+        mk = ('u = URL("%s://[%s]"); u.port, u.username, u.password, u.path_parts, u.fragment = %r, %r, %r, %r, %r\nfor k, w in %r:\n    u.query_params.add(k, w)\n'
+              % (env[0], HOSTS[env[1]], env[2], c['username'], c['password'], ('',) + tuple(c['segs']), c['fragment'], c['query']))
+    else:
+        mk = ('u = URL.from_parts(scheme=%r, host=%r, port=%r, username=%r, password=%r, path_parts=%r, query_params=%r, fragment=%r)\n'
+              % (env[0], HOSTS[env[1]], env[2], c['username'], c['password'], ('',) + tuple(c['segs']), c['query'], c['fragment']))
+    return HDR + (mk +
                   'v = URL(u.to_text(full_quote=True))\n'
                   'got = (v.username or "", v.password or "", list(v.path_parts), [(k, w or "") for k, w in v.query_params.items(multi=True)], v.fragment)\n'
                   'assert got == %r, (u.to_text(full_quote=True), got)\n'
-                  % (env[0], HOSTS[env[1]], env[2], c['username'], c['password'], ('',) + tuple(c['segs']), c['query'], c['fragment'],
-                     tuple(expected(env, c)[k] for k in ('username', 'password', 'segs', 'query', 'fragment'))))
+                  % (tuple(expected(env, c)[k] for k in ('username', 'password', 'segs', 'query', 'fragment')),))
 
 
 def check_roundtrip(H, env, pos, s, syms, filled):
@@ -179,10 +190,10 @@ def check_roundtrip(H, env, pos, s, syms, filled):
         probs, text = roundtrip(env, c)
     except Exception as e:  # noqa
         probs = [('component_recovered', 'raised %s: %s' % (type(e).__name__, e))]
-    _cache[(env, pos, s, filled)] = bool(probs)
+    _cache[(env, pos, s, filled)] = frozenset(p[0] for p in probs)
     for clause in sorted(set(p[0] for p in probs)):
         detail = '; '.join(p[1] for p in probs if p[0] == clause)
-        for wc in wclasses(env, pos, s, syms, filled):
+        for wc in wclasses(env, pos, s, syms, filled, clause):
             H.fail(clause, 'URL.to_text(full_quote=True) -> URL()', wc, wit, detail, rt_snippet(env, c))
 
 
@@ -262,7 +273,7 @@ def check_fixed(H, text, pos=None, tup=(), frame=None):
             blank_pair = False
         if cul:
             for c in cul:                                 # same triple as the round-trip failure of that character, if any
-                in_full = fails(('http', 'name', None), pos, c, True)
+                in_full = 'component_recovered' in fails(('http', 'name', None), pos, c, True)
                 H.fail('component_recovered' if in_full else clause, 'URL.to_text(full_quote=True) -> URL()' if in_full else
                        'URL.to_text(full_quote=False) -> URL()', '%s containing %r' % (KIND[pos], c), text, detail, snip)
         else:
@@ -336,7 +347,10 @@ def run():
     # 1. per-function quoting: legality, unquote inverse
     singles = [chr(i) for i in range(0x300)]
     for kind, fname in QUOTERS.items():
-        fn = getattr(U, fname)
+        fn = getattr(U, fname, None)
+        if fn is None:
+            H.fail('quote_output_legal', fname, 'function missing', fname, 'boltons.urlutils has no %s' % fname)
+            continue
         gen = itertools.chain(((s, (s,)) for s in singles), strings(3 if big else 2))
         for s, tup in gen:
             H.ev(key=(kind, s), nontrivial=not triv.fullmatch(s), sample=dict(fn=fname, s=s), part='quote')
@@ -368,7 +382,7 @@ def run():
     # 3. component round trip
     envs = []
     for scheme, hk, port in itertools.product(('http', 'mailto', 'x', 'git+ssh'), HOSTS, (None, 'default', 8080)):
-        dp = URL.from_parts(scheme=scheme).default_port
+        dp = default_port(scheme)
         if port == 'default':
             if dp is None:
                 continue
@@ -395,7 +409,7 @@ def run():
                 H.note_truncated('round trip: strings of length %d stopped by time budget' % maxlen)
                 break
     for a, b in itertools.product(SYMS, repeat=2):        # every position filled with special text at once
-        c = dict(username=a + b, password=b + a, segs=[a, b, a + b], query=[(a, b)] + ([(b, a)] if a != b else []) + [(a + b, b + a)] * (a + b != a),
+        c = dict(username=a + b, password=b + a, segs=[a, b, a + b], query=[(a, b)] + ([(b, a)] if a != b else []) + [(a + b, b + a)],
                  fragment=b + a)
         for env in few:
             H.ev(key=('all', env, a, b), sample=dict(env=env, all_positions=[a, b]), part='roundtrip_all_positions')
@@ -403,13 +417,12 @@ def run():
                 probs = roundtrip(env, c)[0]
             except Exception as e:  # noqa
                 probs = [('component_recovered', 'raised %r' % e)]
-            if probs:
-                single = [(p, x) for p in POSITIONS for x in (a, b) if fails(env, p, x, True) and not fails(env, p, 'zz', True)]
+            for clause in sorted(set(p[0] for p in probs)):
+                single = [(p, x) for p in POSITIONS for x in (a, b) if clause in fails(env, p, x, True) and clause not in fails(env, p, 'zz', True)]
                 wcs = sorted(set('%s containing %r' % (KIND[p], x) for p, x in single)) or ['special characters in all components at once']
-                for clause in sorted(set(p[0] for p in probs)):
-                    for wc in wcs:
-                        H.fail(clause, 'URL.to_text(full_quote=True) -> URL()', wc, dict(env=env, components=c),
-                               '; '.join(p[1] for p in probs if p[0] == clause), rt_snippet(env, c))
+                for wc in wcs:
+                    H.fail(clause, 'URL.to_text(full_quote=True) -> URL()', wc, dict(env=env, components=c),
+                           '; '.join(p[1] for p in probs if p[0] == clause), rt_snippet(env, c))
 
     # 4. fixed points on well-formed texts
     for text in skeleton_texts():
